@@ -2596,7 +2596,7 @@ class FuncLs(ValueFunc):
         if args.hasArg("module"):
             moduleArg = args.get("module")
             if moduleArg.isString():
-                module = environment.get(moduleArg.value, pos).value
+                module = environment.get(moduleArg.value, pos).asObject().value
             else:
                 module = args.get("module").asObject().value
             for symbol in module:
